@@ -1061,6 +1061,41 @@ func (env *Env) evalBuiltinCall(name string, argsE []*Expr) (*Val, error, bool) 
 			ref = "(s.arr " + v.T + ")"
 		}
 		return boolVal(and(not(eq(ref, "nil")), not(sel(e.allocArr(env.old), ref)))), nil, true
+	case "sameArray":
+		a, err := arg(0)
+		if err != nil {
+			return nil, err, true
+		}
+		b, err := arg(1)
+		if err != nil {
+			return nil, err, true
+		}
+		return boolVal(eq("(s.arr "+a.T+")", "(s.arr "+b.T+")")), nil, true
+	case "any":
+		// any(x): the value x boxed into an empty interface
+		v, err := arg(0)
+		if err != nil {
+			return nil, err, true
+		}
+		bv, err := env.fitTo(v, types.NewInterfaceType(nil, nil))
+		if err != nil {
+			return nil, err, true
+		}
+		if v.Untyped {
+			return nil, fmt.Errorf("any() of an untyped literal"), true
+		}
+		return &Val{T: bv.T, Typ: types.NewInterfaceType(nil, nil), ConstLen: -1}, nil, true
+	case "alive":
+		// allocated in the current state
+		v, err := arg(0)
+		if err != nil {
+			return nil, err, true
+		}
+		ref := v.T
+		if _, ok := v.Typ.Underlying().(*types.Slice); ok {
+			ref = "(s.arr " + v.T + ")"
+		}
+		return boolVal(sel(e.allocArr(env.st), ref)), nil, true
 	case "allocated":
 		v, err := arg(0)
 		if err != nil {
